@@ -207,7 +207,7 @@ fn grid(check: &Check) {
         }
     }
     // skins: both layouts × empty / one / many per array × all targets
-    for layout in [None, Some(0u32), Some(1), Some(2)] {
+    for layout in [None, Some(0u32), Some(1), Some(2), Some(3), Some(4), Some(5)] {
         for n in [0usize, 1, 6] {
             for target in Ver::ALL {
                 for with_batches in [false, true] {
